@@ -107,8 +107,19 @@ func GenCase(t *rapid.T, mode string) Case {
 			}
 			c.Ops = append(c.Ops, Op{K: "campaign", M: to}, Op{K: "gen", M: to, Count: vkit.PickU(t, counts, "count")})
 			cur = to
+		case k < 76:
+			c.Ops = append(c.Ops, Op{K: "campaign", M: m, Mid: vkit.PickU(t, []uint32{0, 0, 1, 10}, "mid")})
 		case k < 77:
-			c.Ops = append(c.Ops, Op{K: "campaign", M: m})
+			// a take-over that fails while the allocator is initialized (the save of the window fails or its
+			// answer is lost), somebody else leads and grants, then the first member wins again and a request
+			// reaches it before its initialization has finished
+			other := mem()
+			c.Ops = append(c.Ops, Op{K: "resign", M: m}, Op{K: "resign", M: other},
+				Op{K: "campaign", M: m, Fail: vkit.PickU(t, []string{"init-before", "init-before", "init-lostack"}, "initFail")},
+				Op{K: "campaign", M: other}, Op{K: "gen", M: other, Count: vkit.PickU(t, counts, "count")},
+				Op{K: "clockall", D: vkit.PickU(t, []int64{0, 1, 50}, "tick2")}, Op{K: "update", M: other}, Op{K: "gen", M: other, Count: 1},
+				Op{K: "resign", M: other},
+				Op{K: "campaign", M: m, Mid: vkit.PickU(t, []uint32{1, 1, 10}, "mid2")}, Op{K: "gen", M: m, Count: 1})
 		case k < 79:
 			// the lease runs out while a request is waiting for the next physical tick
 			c.Ops = append(c.Ops, Op{K: "nearexpire", M: m, D: vkit.PickU(t, []int64{0, 1, 30, 49, 120}, "before")},
